@@ -250,7 +250,9 @@ def users(rep, ctx):
     guards = [nme for nme, ty in caps if "SemaphoreGuard" in ty]
     if len(lists) != 1:
         raise Inconclusive("captures of the rehash task closure not identified")
-    eng = oblig.engine(prog, unroll=3, inline=oblig.module_inliner(prog, "group.rs", TASK_LEAVES))
+    import listsum as _ls
+    eng = oblig.engine(prog, unroll=6, inline=oblig.module_inliner(prog, "group.rs", TASK_LEAVES),
+                       extra={r"^<.* as (std::iter::)?Iterator>::(skip|take)$": _ls.s_iter_skip_take})
     fields = {i: (ListV([Lazy("m0", "HashedFileInfo")]) if i == lists[0] else Lazy("cap_" + nme, "?")) for i, (nme, ty) in enumerate(caps)}
     qs = eng.run(tk, args=[Agg(span, fields)])
 
